@@ -45,6 +45,8 @@ def group_reads(t):
 
 def run(ctx):
     ctx.rule_texts.update(RULES)
+    from ..idioms import check_overflow_profile
+    check_overflow_profile(ctx)
     ctx.assumptions += ["A-ATOMIC", "A-PRIMS", "the group contract answers Member{at_height} from its own snapshot (see C09)"]
     ctx.not_decided += ["the group's own snapshot correctness (C09, external SnapshotMap)"]
     it = items(ctx)
